@@ -120,6 +120,18 @@ def shard_table_graphs(arg):
     return rep
 
 
+def shard_named(arg):
+    n, part, parts, seed = arg
+    from gen import named
+    rep = fw.Report()
+    for i, (label, gid, w, gens, circ) in enumerate(named.named_subjects(n)):
+        if i % parts != part:
+            continue
+        for name in sweep.configs(n):
+            check_member_case({"n": n, "connectivity": name, "strings": sweep.strings(gens, n), "circuit": circ if i % 2 == 0 else None, "_sample": False}, rep)
+    return rep
+
+
 def shard_static(arg):
     """MUB circuits and coupling graphs (exhaustive)"""
     rep = fw.Report()
@@ -236,6 +248,8 @@ def shard(arg):
         return shard_static(arg[1:])
     if kind == "table-graphs":
         return shard_table_graphs(arg[1:])
+    if kind == "named":
+        return shard_named(arg[1:])
     return shard_measure(arg[1:])
 
 
@@ -250,9 +264,13 @@ def run(ctx):
     for (n, name) in coupling.CONFIGS:
         for chunk in fw.split(list(range(kc[n])), 1 if n < 6 else 4):
             args.append(("table-graphs", n, name, chunk, ctx.seed))
+    for n in range(2, 7):
+        parts = {2: 1, 3: 1, 4: 2, 5: 6, 6: 16}[n]
+        for part in range(parts):
+            args.append(("named", n, part, parts, ctx.seed))
     for i in range(16):
         args.append(("measure", ctx.seed * 1000 + i, 12 if q else 1200, ctx.deadline))
-    args.sort(key=lambda a: (0 if a[0] in ("members", "table-graphs") else 1, -(a[1] if a[0] in ("members", "table-graphs") else 0)))
+    args.sort(key=lambda a: (0 if a[0] in ("members", "table-graphs", "named") else 1, -(a[1] if a[0] in ("members", "table-graphs", "named") else 0)))
     rep = fw.run_shards(ctx, "props.c02", "shard", args)
     rep.extra["exhaustive"] = False
     rep.extra["exhaustive_part"] = "coupling graphs of the 20 configurations and all 744 MUB circuits are checked completely in every run"
